@@ -88,19 +88,26 @@ def signature(prop, mode, clause, idx, rec):
                 reach = sum(6 if it['k'] in INSTR_LIKE else (it['n'] if it['k'] == 'align' else 0) for it in prog)
                 if v is not None and -2048 <= v <= 2047 and (v - reach < -2048 or v + reach > 2047):
                     sig['cause'] = 'label-value-at-range-edge'
-    if prop == 'C20' and clause in ('NotLonger', 'NeverLongerPerItem') and rec['nc']['status'] == 'ok' and rec['c']['status'] == 'ok':
-        # a li whose value GROWS when labels move down (n - L) crosses the 12-bit edge only in the compressed layout and takes its
-        # two-instruction form there: the li is 4 bytes without -c, 8 with it, and its uncompressed value is within reach of 2047
+    if prop == 'C20' and clause in ('NotLonger', 'NeverLongerPerItem', 'LabelsNotLater') and rec['nc']['status'] == 'ok' and rec['c']['status'] == 'ok':
+        # a li of a label-dependent value that sits within reach of an edge of the 12-bit range in the uncompressed layout and
+        # crosses it only in the compressed one: one instruction (4 bytes) without -c, lui+addi (8 bytes) with it.  Everything that
+        # grows in the program must be such a li (aligns aside: their padding follows), and the clause must be about one of them,
+        # about the total, or about a label behind one of them.
         ns, cs, labels = rec['nc']['sizes'], rec['c']['sizes'], rec['nc']['labels']
         reach = sum(6 if it['k'] in INSTR_LIKE else (it['n'] if it['k'] == 'align' else 0) for it in prog)
-        grown = [j for j, it in enumerate(prog) if cs[j] > ns[j]]
+        grown = [j for j, it in enumerate(prog) if cs[j] > ns[j] and it['k'] != 'align']
+
         def edge(j):
             it = prog[j]
-            if it['k'] != 'lil' or it['f'] != 'neg' or ns[j] != 4 or cs[j] != 8 or it['t'] not in labels:
+            if it['k'] != 'lil' or ns[j] != 4 or cs[j] != 8:
                 return False
-            v = it['n'] - labels[it['t']]
-            return v <= 2047 < v + reach
-        if grown and all(edge(j) for j in grown) and (idx == 0 or (idx - 1) in grown):
+            pos = sum(ns[:j])
+            lab = labels.get(it['t'])
+            v = {'bare': lambda: lab, 'pos': lambda: it['n'] + lab, 'off': lambda: lab - pos, 'offk': lambda: it['n'] - pos,
+                 'neg': lambda: it['n'] - lab}.get(it['f'], lambda: None)() if (lab is not None or it['f'] == 'offk') else None
+            return v is not None and -2048 <= v <= 2047 and (v - reach < -2048 or v + reach > 2047)
+        about = idx == 0 or (idx - 1) in grown or (clause == 'LabelsNotLater' and any(j < idx - 1 for j in grown))
+        if grown and all(edge(j) for j in grown) and about:
             sig['cause'] = 'label-value-at-range-edge'
     return sig
 
@@ -197,9 +204,18 @@ def model_level(run, scratch, prop):
     devs = DEVS.get(prop, [])
     for cls, maxlen, gaps, dev in plans:
         invs = ['M_LabelsExact', 'M_TargetExact', 'M_ValuesExact', 'M_AgreesWithRun', 'M_CompressSafe']
-        if cls in ('oddalign', 'values'):
-            # M_CompressSafe fails on these classes by design: KF-C12-odd-align-parity / KF-C12-li-decided-early
+        if cls in ('oddalign', 'values', 'aligns'):
+            # M_CompressSafe fails on these classes by design (odd alignments, label values at the edge of a range):
+            # KF-C12-odd-align-parity / KF-C12-label-value-at-range-edge / KF-C20-label-value-at-range-edge
             invs.remove('M_CompressSafe')
+        elif cls == 'abs':
+            # an %offset of a constant at the edge of li's 12-bit range may make one li longer under -c (the KF-C20 family):
+            # on this class only the success half is claimed
+            invs[invs.index('M_CompressSafe')] = 'M_CompressKeepsSuccess'
+            if maxlen >= 4:
+                # ... and with four items even that half fails by design: 'K2 = 2052 ; addi x8, x8, 1 ; li x9, 5 ; li x9, %offset K2'
+                # is the known finding KF-C12-label-value-at-range-edge in its %offset-of-a-constant form
+                invs.remove('M_CompressKeepsSuccess')
         cfg = os.path.join(scratch, 'mc_%s_%d_%d.cfg' % (cls, maxlen, len(gaps)))
         tlc.write_cfg(cfg, spec='MSpec', constants=dict({'Class': cls, 'MaxLen': maxlen, 'Gaps': set(gaps), 'MaxGapItems': 1}, **dict(NODEV, **dev)),
                       invariants=invs, properties=['M_LabelsMonotone'])
